@@ -377,12 +377,16 @@ func (p *plan) total(side int) int {
 	return n
 }
 
+type failure struct {
+	kind string // "read", "write", "panic"
+	side int
+	err  error
+	at   string
+}
+
 type exchangeResult struct {
 	reads    [2][][]byte // reads[i] = what side i read (sent by side 1-i)
-	failKind string      // "", "read", "write": the FIRST failure; later ones are consequences of tearing the link down
-	failSide int
-	failErr  error
-	failAt   string
+	fails    []failure   // in order of occurrence; after the first one the link is torn down, so later ones are usually consequences
 	panics   []string
 	hung     bool
 	dump     string
@@ -398,10 +402,7 @@ func exchange(tr [2]transport.Transport, p *plan, rng *rand.Rand, wd time.Durati
 	var once sync.Once
 	fail := func(kind string, side int, err error, at string) {
 		mu.Lock()
-		first := res.failKind == ""
-		if first {
-			res.failKind, res.failSide, res.failErr, res.failAt = kind, side, err, at
-		}
+		res.fails = append(res.fails, failure{kind, side, err, at})
 		mu.Unlock()
 		once.Do(func() {
 			go func() {
@@ -466,6 +467,7 @@ func exchange(tr [2]transport.Transport, p *plan, rng *rand.Rand, wd time.Durati
 	for i := range cp.reads {
 		cp.reads[i] = append([][]byte(nil), res.reads[i]...)
 	}
+	cp.fails = append([]failure(nil), res.fails...)
 	return &cp
 }
 
@@ -728,6 +730,22 @@ func (o *obs) into(res *vrun.Result) {
 	res.Stat("frames_differing_from_payload", o.compressedFrames)
 	res.Stat("frames_needing_the_dictionary", o.needDict)
 	res.Stat("frames_with_trailing_bytes", o.trailing)
+}
+
+// rootCauses: error texts that identify a defect by themselves. When one of them occurs among the failures of a case
+// it is the one reported (the other errors are consequences of the connection having been closed by it).
+var rootCauses = []struct{ phrase, slug string }{
+	{"previous message not read to completion", "previous-message-not-read-to-completion"},
+	{"read limited at", "backend-read-limit"},
+}
+
+func rootCauseOf(err error) string {
+	for _, rc := range rootCauses {
+		if strings.Contains(err.Error(), rc.phrase) {
+			return rc.slug
+		}
+	}
+	return ""
 }
 
 // errIsEnvironmental: errors of real sockets that stem from wall-clock timeouts of the network stack.
